@@ -368,6 +368,7 @@ func init() {
 			return in.St.Or(ds...)
 		},
 	}
+	registerScannerIntrinsics()
 	registerRegexIntrinsics()
 	registerL1Intrinsics()
 }
@@ -1031,4 +1032,90 @@ func normEnum(s *Str, live []int) *Str {
 		}
 	}
 	return concStr(first)
+}
+
+// ---------- strings.Reader + bufio.Scanner (line scanning) as a model over strings ----------
+
+type symReader struct{ s *Str }
+type symScanner struct {
+	lines []*Str
+	idx   int
+}
+
+func registerScannerIntrinsics() {
+	intrinsics["strings.NewReader"] = func(in *Interp, fn *ssa.Function, a []Value) Value {
+		return &HostV{reflect.ValueOf(&symReader{s: a[0].(*Str)})}
+	}
+	intrinsics["bufio.NewScanner"] = func(in *Interp, fn *ssa.Function, a []Value) Value {
+		var r *symReader
+		switch x := a[0].(type) {
+		case *IfaceV:
+			if h, ok := x.val.(*HostV); ok {
+				r, _ = h.rv.Interface().(*symReader)
+			}
+		case *HostV:
+			r, _ = x.rv.Interface().(*symReader)
+		}
+		if r == nil {
+			in.fail("bufio.NewScanner over an unmodelled reader")
+		}
+		in.stubs["bufio.Scanner over strings.Reader (ScanLines: split at \\n, final line without newline kept, one trailing \\r dropped; 64KiB token limit not modelled)"] = true
+		return &HostV{reflect.ValueOf(&symScanner{lines: in.scanLines(r.s)})}
+	}
+	intrinsics["(*bufio.Scanner).Scan"] = func(in *Interp, fn *ssa.Function, a []Value) Value {
+		sc := a[0].(*HostV).rv.Interface().(*symScanner)
+		if sc.idx < len(sc.lines) {
+			sc.idx++
+			return in.St.True
+		}
+		sc.idx = len(sc.lines) + 1
+		return in.St.False
+	}
+	intrinsics["(*bufio.Scanner).Text"] = func(in *Interp, fn *ssa.Function, a []Value) Value {
+		sc := a[0].(*HostV).rv.Interface().(*symScanner)
+		if sc.idx >= 1 && sc.idx <= len(sc.lines) {
+			return sc.lines[sc.idx-1]
+		}
+		return concStr("")
+	}
+	intrinsics["(*bufio.Scanner).Err"] = func(in *Interp, fn *ssa.Function, a []Value) Value { return &IfaceV{} }
+}
+
+// scanLines models bufio.ScanLines over the whole input.
+func (in *Interp) scanLines(s *Str) []*Str {
+	st := in.St
+	if s.kind == sConc {
+		var out []*Str
+		data := s.conc
+		for len(data) > 0 {
+			i := strings.IndexByte(data, '\n')
+			var line string
+			if i >= 0 {
+				line, data = data[:i], data[i+1:]
+			} else {
+				line, data = data, ""
+			}
+			if len(line) > 0 && line[len(line)-1] == '\r' {
+				line = line[:len(line)-1]
+			}
+			out = append(out, concStr(line))
+		}
+		return out
+	}
+	parts := in.strSplitByte(s, '\n')
+	// a trailing newline does not start another line
+	last := parts[len(parts)-1]
+	if in.branch(st.Eq(in.strLen(last), st.Int(0)), "file ends with newline") {
+		parts = parts[:len(parts)-1]
+	}
+	out := make([]*Str, len(parts))
+	for i, p := range parts {
+		v := in.toView(p)
+		ln := v.length
+		hasCR := st.And(st.Lt(st.Int(0), ln), st.Eq(v.at(st.Sub(ln, st.Int(1))), st.Int('\r')))
+		nl := st.Ite(hasCR, st.Sub(ln, st.Int(1)), ln)
+		vv := v
+		out[i] = &Str{kind: sView, length: nl, max: v.max, origin: v.origin, at: func(i *sym.Term) *sym.Term { return vv.at(i) }}
+	}
+	return out
 }
